@@ -318,6 +318,20 @@ def _aux_pool(S, cfg, pool, W, main_spec):
         subs.append(seq[i:j])
     add('subs', 'SUB0', {'kind': 'nf', 'val': nf_list(subs)})
     add('subpep', 'SP0', {'kind': 'nf', 'val': subs[0]})
+    # modified sub-peptides as parsed annotations of their own: a true slice around a modified residue, and its
+    # positional isomer (the same modifications on another residue of the window)
+    modded = sorted(int(x) for x in main_spec['internal'])
+    if modded and n >= 2 and not main_spec['intervals']:
+        p = S.pick(modded)
+        i = S.randint(max(0, p - 2), p)
+        j = S.randint(p + 1, min(n, p + 3))
+        if j - i < 2:
+            i, j = (max(0, p - 1), p + 1) if p > 0 else (0, min(n, 2))
+        add('subpep_ann', 'SA0', {'kind': 'subann', 'spec': main_spec, 'i': i, 'j': j, 'move': None})
+        free = [q for q in range(i, j) if q != p and q not in modded]
+        if free:
+            add('subpep_ann', 'SA1', {'kind': 'subann', 'spec': main_spec, 'i': i, 'j': j,
+                                      'move': [p - i, S.pick(free) - i]})
     add('enz', 'E0', {'kind': 'nf', 'val': ['enzcfg', nf_list([S.pick(catalog.ENZ)]), S.pick([0, 1, 2]), S.coin(0.3),
                                             S.coin(0.8)]})
     add('enzs', 'EL0', {'kind': 'nf', 'val': nf_list(
@@ -764,6 +778,13 @@ def _gen_random_plan(S, header, tier):
         k = S.randint(0, len(specs) - 1)
         specs[k], where, val = SP.poison(S, specs[k])
         poisoned = [f'A{k}', where, val]
+    if S.coin(0.08):
+        # a peptide with NO residues that still carries global rules (what an empty slice of a protein is)
+        e = SP.gen_pep(S, dict(cfg, maxlen=3, minlen=1))
+        e.update({'seq': '', 'internal': {}, 'intervals': [], 'unknown': [], 'cterm': []})
+        if not e['static']:
+            e['static'] = ['[57]@C', '[Acetyl]@N-Term'][:S.randint(1, 2)]
+        specs.append(e)
     vias = [S.pick(['parse', 'parse', 'create']) for _ in specs]
     pool, W = _mk_world(S, cfg, specs, vias, tier)
     nclients = S.randint(1, 3)
@@ -830,6 +851,8 @@ def _gen_random_plan(S, header, tier):
                            'ref': 'pristine' if S.coin(0.04) else None})
             if any(e['act'] == 'owneredit' for e in events[-3:]):
                 events[-1]['pristine'] = True     # the call right after the client edited its own object
+            if 'owneredit' in faults and not OPS[name].lazy and S.coin(0.2):
+                events[-1]['late_read'] = True     # the client edits its annotation before looking at the result
             if 'warnerr' in faults and not OPS[name].lazy and S.coin(0.35):
                 events[-1]['warnerr'] = True       # the client runs with warnings turned into errors (-W error)
             W['results'][rh] = name
@@ -1170,7 +1193,28 @@ def _do_call(run, ev_i, ev, touched):
         s_ok, s_res = _call(o, sargs)
     g1 = G.cheap()
     # dump the result at once: later restores / scribbles must not leak into what is compared
-    if not (o.lazy and s_ok):
+    late = bool(ev.get('late_read')) and s_ok and not o.lazy and not o.exempt
+    if late:
+        # ... except for a late read: the client first edits the annotation(s) it passed in (in place, its own
+        # objects), only then looks at what it was given, and puts the annotations back.  What the result shows must
+        # be what was computed for the annotation as it was at the call (Fragment.parent_sequence, the documented
+        # back-reference, is left out of the comparison).
+        edited = []
+        for a_ in ev['args'].values():
+            h_ = a_.get('h')
+            if h_ and h_[0] == 'A' and h_ not in edited and isinstance(run.pool.get(h_), pt.ProFormaAnnotation):
+                if _owner_edit_other(run.pool[h_], ev_i + 3) is not None:
+                    edited.append(h_)
+        try:
+            ns = _strip_parent(N.norm(s_res))
+        finally:
+            for h_ in edited:
+                world.restore(run.pool[h_], snaps[h_])
+        if edited:
+            out.faults['late_read'] += 1
+        else:
+            late = False
+    elif not (o.lazy and s_ok):
         ns = N.norm(s_res) if s_ok else N.norm_exc(s_res)
     if not ev.get('twin_first'):
         t_ok, t_res = twin_eval()
@@ -1236,6 +1280,8 @@ def _do_call(run, ev_i, ev, touched):
         run.calls_since += 1
         return False
     out.record([ev_i, ns if not o.rng else 'rng'])
+    if late:
+        nt = _strip_parent(nt)
     if not o.rng:
         out.oracle_checks += 1
         d = N.same(ns, nt, '')
@@ -1244,7 +1290,7 @@ def _do_call(run, ev_i, ev, touched):
                              f"HIST: {ev['op']} on the shared object after {ev_i} earlier events differs from the same "
                              f"call on a fresh twin: {d}", ev_i, None, {'shared': _clip(ns), 'fresh': _clip(nt)}):
                 return True
-    if _pristine_check(run, ev_i, ev, o, snaps, ns):
+    if not late and _pristine_check(run, ev_i, ev, o, snaps, ns):
         return True
     run.results[ev['out']] = {'val': s_res if s_ok else None, 'ev': ev, 'op': ev['op']}
     run.calls_since += 1
@@ -1371,6 +1417,16 @@ def _do_owner_edit(run, ev_i, ev):
     for rh in [rh for rh, r in run.results.items() if any(a.get('h') == h for a in r['ev']['args'].values())]:
         del run.results[rh]
     return False
+
+
+def _strip_parent(nf):
+    if isinstance(nf, list):
+        if len(nf) == 2 and nf[0] == 'frag' and isinstance(nf[1], dict):
+            return ['frag', {k: v for k, v in nf[1].items() if k != 'parent_sequence'}]
+        return [_strip_parent(x) for x in nf]
+    if isinstance(nf, dict):
+        return {k: _strip_parent(v) for k, v in nf.items()}
+    return nf
 
 
 def _pristine_check(run, ev_i, ev, o, snaps, here):
